@@ -117,3 +117,23 @@ Example T04_example_budget_exhausted :
              (fun _ => 0) (fun p _ => p) app (fun _ s => s) 2 MAX_FILE_PASSES false false tt 0 in
   fst r = 1000 + MAX_FILE_PASSES /\ length (snd r) = 2 * MAX_FILE_PASSES * 2 + 14.
 Proof. vm_compute. split; reflexivity. Qed.
+
+(* T04.9 (round 5, seed C04-d): in symbolic_math.simplify_boolean_expressions the constants collected as
+   bounds of one operand (the isinstance guard = bound_admitted, tied to the code by correspondence) are
+   pairwise orderable, so the unguarded comparisons of the redundancy analysis raise no TypeError;
+   `orderable` is the reference semantics (validated against CPython) *)
+Theorem T04_9_collected_bounds_comparisons_total :
+  forall ks : list bkind, comparisons_total (collected_bounds ks) = true.
+Proof. exact collected_bounds_comparisons_total. Qed.
+Print Assumptions T04_9_collected_bounds_comparisons_total.
+
+(* T04.9' the guard cannot be widened: one more kind next to int and the comparisons are partial *)
+Theorem T04_9_wider_guard_not_total :
+  forall k : bkind, bound_admitted k = false -> comparisons_total [BkInt; k] = false.
+Proof. exact wider_guard_not_total. Qed.
+Print Assumptions T04_9_wider_guard_not_total.
+
+Example T04_9_example_mixed_operand :
+  collected_bounds [BkStr; BkInt; BkNone; BkFloat; BkBytes] = [BkInt; BkFloat]
+  /\ comparisons_total [BkStr; BkInt] = false.
+Proof. vm_compute. split; reflexivity. Qed.
